@@ -51,6 +51,7 @@ fn main() {
         (Some("replay"), Some("sddvec")) => vec_replay::replay_sddvec(&args),
         (Some("replay"), Some("satvec")) => sat_rec::replay_satvec(&args),
         (Some("replay"), Some("table")) => tables::replay_table(&args),
+        (Some("replay"), Some("machine")) => machine_rec::replay(&args),
         (Some("record"), Some("lru")) => tables::record_lru(&args),
         (Some("replay"), Some("lru")) => tables::replay_lru(&args),
         _ => {
